@@ -10,6 +10,8 @@ import (
 	"os/exec"
 	"path/filepath"
 	"runtime"
+	"strconv"
+	"strings"
 	"time"
 
 	"go.uber.org/zap"
@@ -302,6 +304,82 @@ func c17FootprintWorker(path string) int {
 	return 0
 }
 
+// c17RefreshWorker runs in a fresh process: a disk-backed validator loads a 1000-entry CRL, then the origin serves the
+// big document (streamed from the file, the harness holds none of it) and a refresh takes it in. Reported: growth of
+// the heap obtained from the OS across the refresh.
+func c17RefreshWorker(path string, n int) int {
+	p := world.Std()
+	var m0, m1 runtime.MemStats
+	verdict, errs := "", ""
+	serial := func(i int) *big.Int {
+		return new(big.Int).Add(new(big.Int).Lsh(big.NewInt(1), 70), big.NewInt(int64(i)))
+	}
+	seqWorld(func() {
+		w := NewCW(CWOpt{Disk: true, SigMode: config.SignatureValidationModeVerify})
+		defer os.RemoveAll(w.Dir)
+		w.Net.Routes[urlA] = &world.Behaviour{Label: "small", Body: c17Doc(1000, false)}
+		if err := w.Provision(); err != nil {
+			errs = err.Error()
+			return
+		}
+		vsched.Drain()
+		first := world.Leaf(p.CA, serial(0), []string{urlA}, nil)
+		if v := w.Lookup(first, world.Chain(first, p.CA, p.Root)); v.String() != "REVOKED" {
+			errs = "first load: " + v.String() + " " + v.Err
+			return
+		}
+		w.Net.Routes[urlA] = &world.Behaviour{Label: "big", Stream: func() io.ReadCloser {
+			f, err := os.Open(path)
+			if err != nil {
+				panic(err)
+			}
+			return f
+		}}
+		runtime.GC()
+		runtime.ReadMemStats(&m0)
+		w.Chk.VerifUpdateCRLs(true)
+		vsched.Drain()
+		runtime.ReadMemStats(&m1)
+		last := world.Leaf(p.CA, serial(n-1), []string{urlA}, nil)
+		verdict = w.Lookup(last, world.Chain(last, p.CA, p.Root)).String()
+		w.Chk.Cleanup()
+	})
+	b, _ := json.Marshal(map[string]interface{}{"heap_sys_before": m0.HeapSys, "heap_sys_after": m1.HeapSys, "verdict_last_entry": verdict, "err": errs})
+	fmt.Println(string(b))
+	return 0
+}
+
+// c17RefreshFootprint: the refresh path (download -> staging store -> swap) of a disk-backed validator for an n-entry
+// CRL in a fresh process; heap growth across the refresh bounded independently of n.
+func c17RefreshFootprint(chk *fw.Check, n int, dir string) int64 {
+	path := filepath.Join(dir, "refresh.crl")
+	os.WriteFile(path, c17Doc(n, false), 0600)
+	defer os.Remove(path)
+	out, err := exec.Command(os.Args[0], "C17", "--tier", "worker", "--", "refreshfootprint", path, fmt.Sprint(n)).Output()
+	var r struct {
+		Before  int64  `json:"heap_sys_before"`
+		After   int64  `json:"heap_sys_after"`
+		Verdict string `json:"verdict_last_entry"`
+		Err     string `json:"err"`
+	}
+	lines := strings.Split(strings.TrimSpace(string(out)), "\n")
+	if err != nil || json.Unmarshal([]byte(lines[len(lines)-1]), &r) != nil {
+		chk.Violation("C17|footprint-worker-died|refresh", fmt.Sprintf("refresh of a %d-entry CRL in a fresh process failed: %v %s", n, err, firstLines(string(out), 3)), nil)
+		return -1
+	}
+	if r.Err != "" || r.Verdict != "REVOKED" {
+		chk.Violation("C17|disk-path-failed|refresh", fmt.Sprintf("refresh to a %d-entry CRL: %s; last entry => %s", n, r.Err, r.Verdict), nil)
+		return -1
+	}
+	g := r.After - r.Before
+	if g > c17RefreshBound {
+		chk.Violation("C17|refresh-footprint-grows", fmt.Sprintf("refresh of a disk-backed validator to a %d-entry CRL: the heap obtained from the OS grew by %d bytes (bound %d independent of the size)", n, g, c17RefreshBound), map[string]interface{}{"n": n})
+	}
+	return g
+}
+
+const c17RefreshBound = 96 * mib
+
 // c17Footprint: heap footprint of reading doc in a fresh process must stay below 32 MiB whatever the size.
 func c17Footprint(chk *fw.Check, name string, doc []byte, n int, dir string) int64 {
 	path := filepath.Join(dir, "footprint.crl")
@@ -333,6 +411,10 @@ func c17Footprint(chk *fw.Check, name string, doc []byte, n int, dir string) int
 func RunC17(tier string, args []string) int {
 	if len(args) > 1 && args[0] == "footprint" {
 		return c17FootprintWorker(args[1])
+	}
+	if len(args) > 2 && args[0] == "refreshfootprint" {
+		n, _ := strconv.Atoi(args[2])
+		return c17RefreshWorker(args[1], n)
 	}
 	chk := fw.NewCheck("C17", tier, "exploration")
 	chk.Assumptions = []string{
@@ -391,6 +473,15 @@ func RunC17(tier string, args []string) int {
 	footprints = append(footprints, c17Footprint(chk, "ordinary-PEM", c17Doc(fpN/4, true), fpN/4, dir))
 	evals += 3
 	distinct += 3
+	// the refresh path for two sizes: what the heap obtained from the OS grows by must not depend on the size (LevelDB's
+	// buffers and caches saturate at a constant); bound for the difference: 16 MiB (the larger document has 24 MiB more)
+	refreshSmall := c17RefreshFootprint(chk, fpN/4, dir)
+	refreshGrowth := c17RefreshFootprint(chk, fpN, dir)
+	if refreshSmall >= 0 && refreshGrowth-refreshSmall > 16*mib {
+		chk.Violation("C17|refresh-footprint-grows", fmt.Sprintf("refresh of a disk-backed validator: heap obtained from the OS grows by %d bytes for %d entries and by %d bytes for %d entries (difference bound 16 MiB)", refreshSmall, fpN/4, refreshGrowth, fpN), nil)
+	}
+	evals += 2
+	distinct += 2
 	var growths []int64
 	for _, n := range diskN {
 		growths = append(growths, c17Disk(chk, n))
@@ -398,14 +489,15 @@ func RunC17(tier string, args []string) int {
 		distinct++
 	}
 	cov := fw.Coverage{
-		"evaluations":                   evals,
-		"distinct_nontrivial":           distinct,
-		"rule":                          fmt.Sprintf("entry counts: every N in [0,256] and N = 2^k for k = 9..%d (DER, PEM for selected N) through the real reader with a discarding processor; transfer sizes %v bytes via URL download and file copy; whole disk path with N in %v. Non-trivial = N > 1 (the loop iterates).", maxK, sizes, diskN),
-		"heap_samples":                  samples,
-		"disk_peak_growth_bytes":        growths,
-		"reader_footprint_growth_bytes": footprints,
-		"samples":                       []string{"N=256 DER", fmt.Sprintf("N=%d PEM", 1<<maxK), "64 MiB lazily produced download body", fmt.Sprintf("disk path N=%d", diskN[0])},
-		"exhaustive":                    true,
+		"evaluations":                    evals,
+		"distinct_nontrivial":            distinct,
+		"rule":                           fmt.Sprintf("entry counts: every N in [0,256] and N = 2^k for k = 9..%d (DER, PEM for selected N) through the real reader with a discarding processor; transfer sizes %v bytes via URL download and file copy; whole disk path with N in %v. Non-trivial = N > 1 (the loop iterates).", maxK, sizes, diskN),
+		"heap_samples":                   samples,
+		"disk_peak_growth_bytes":         growths,
+		"reader_footprint_growth_bytes":  footprints,
+		"refresh_footprint_growth_bytes": []int64{refreshSmall, refreshGrowth},
+		"samples":                        []string{"N=256 DER", fmt.Sprintf("N=%d PEM", 1<<maxK), "64 MiB lazily produced download body", fmt.Sprintf("disk path N=%d", diskN[0])},
+		"exhaustive":                     true,
 	}
 	return chk.Finish(cov)
 }
